@@ -9,7 +9,7 @@ EXCS = ['ValueError', 'KeyError', 'RuntimeError', 'ZeroDivisionError']
 def delay(rng, malformed=False):
     x = rng.random()
     if malformed and x < 0.03:
-        return -rng.choice([0.5, 1, 2])
+        return -rng.choice([0.5, 1, 2, 2.0 ** -40, 1e-12, 5e-10, 1e-300, 5e-324])      # boundary: a delay is refused as soon as it is < 0
     if x < 0.75:
         return rng.choice(DYADIC)
     if x < 0.85:
@@ -146,7 +146,39 @@ def gen_resource(rng, cid, mode='step'):
 # ------------------------------------------------------------------------------------------------
 # containers and stores (C07)
 
+def gen_bulk(rng, cid, mode='step'):
+    """a store filled with many items in arbitrary order by one or two producers, then drained by getters"""
+    c = Case(cid, mode)
+    k = rng.choice(['pstore', 'pstore', 'store', 'fstore'])
+    c.res.append((k, rng.choice([None, None, 12, 16]), 0))
+    slot = 0
+    n = rng.randint(5, 14)
+    items = [rng.randint(0, 12) for _ in range(n)]
+    nprod = rng.choice([1, 1, 2])
+    for i in range(nprod):
+        prog = []
+        for x in items[i::nprod]:
+            prog.append(('sput', slot, 0, x)); slot += 1
+            if rng.random() < 0.15:
+                prog += [('timeout', slot, delay(rng), None), ('yield', slot, 0)]; slot += 1
+        c.progs.append(prog)
+    for j in range(rng.choice([1, 1, 2, 3])):
+        prog = []
+        if rng.random() < 0.8:
+            prog += [('timeout', slot, rng.choice([0, 0.25, 1, 4]), None), ('yield', slot, 0)]; slot += 1
+        for _ in range(rng.randint(2, n)):
+            prog += [('sget', slot, 0, rng.randrange(5)), ('yield', slot, 0)]; slot += 1
+            if rng.random() < 0.2:
+                prog += [('sput', slot, 0, rng.randint(0, 12))]; slot += 1
+        c.progs.append(prog)
+    for i in range(len(c.progs)):
+        c.mains.append((i, i + 1))
+    return c
+
+
 def gen_store(rng, cid, mode='step', malformed=False):
+    if not malformed and rng.random() < 0.2:
+        return gen_bulk(rng, cid, mode)
     c = Case(cid, mode)
     nres = rng.choice([1, 1, 2])
     for _ in range(nres):
